@@ -152,6 +152,8 @@ struct Pipeline {
         next_out++;
     }
     bool checks_off = false;              // fault engine: output validation is done by its own protocol
+    bool keep_plains = false;             // collect the uncompressed image of every closed output that holds blocks
+    std::vector<std::string> plains;
     std::vector<std::string> closed_raw;  // raw bytes of every output at the moment it was closed by a rotation
     std::string cur_base;                 // name (without suffix) of the output currently open
     std::string cur_dest_path() const { return plan.sw.fd_output ? M.out.name : cur_base + ext + ".part"; }
@@ -210,6 +212,7 @@ struct Pipeline {
             if (!plain.empty()) V("C02", "I03/nonempty-without-blocks", mo.name + " holds " + std::to_string(plain.size()) + " bytes but no block was written");
             return;
         }
+        if (keep_plains) plains.push_back(plain);
         if (plain.size() > 65535) cx.ctr->add("probe.output_over_one_decoder_window");
         if (plain.size() > 131070) cx.ctr->add("probe.output_over_two_decoder_windows");
         // independent reader
@@ -747,5 +750,28 @@ struct Pipeline {
     }
 };
 
+
+// Valid C-DNS files for the read-side engines: whatever a seeded exporter run leaves behind (uncompressed images).
+inline std::vector<std::string> produce_files(uint64_t seed, const std::string& profile_prop) {
+    RunCtx c;
+    Counters ctr;
+    c.prop = profile_prop;
+    c.seed = seed;
+    c.ctr = &ctr;
+    c.log.reset(false);
+    Pipeline p(c);
+    p.keep_plains = true;
+    try {
+        p.run();
+    } catch (Failure&) {
+        throw;
+    } catch (std::exception&) {
+        p.ex.reset();
+    }
+    simfs::fs().watcher = nullptr;
+    simfs::fs().log = nullptr;
+    simfs::fs().reset();
+    return p.plains;
+}
 
 }  // namespace ppl
